@@ -13,7 +13,7 @@ GUARD = 'TULZ_VERIF'
 
 COMMON = ['-std=c++20', '-g', '-fno-omit-frame-pointer', '-I' + os.path.join(REPO, 'include'), '-D' + GUARD,
           '-Wno-deprecated-declarations', '-w']
-SAN = ['-fsanitize=address,undefined', '-fno-sanitize=vptr', '-fno-sanitize-recover=all']
+SAN = ['-fsanitize=address,undefined', '-fno-sanitize=vptr', '-fno-sanitize=nonnull-attribute', '-fno-sanitize-recover=all']
 VARIANTS = {
     # name: (compiler, compile flags, link flags, interposer allowed)
     'asan': ('g++', ['-O1'] + SAN, SAN + ['-ldl', '-rdynamic', '-pthread'], True),
